@@ -100,7 +100,8 @@ Qed.
 Print Assumptions C14_acyclicb_no_cycle.
 
 (* 7. Close or context cancellation at any point (transition system of Model.v: producer
-      between sends / blocked in the select / returned; cancellation may happen in any state):
+      between lookups and sends / inside a datasource lookup that was handed the DERIVED context
+      and honours it / blocked in the select / returned; cancellation may happen in any state):
       afterwards at most two more steps are possible, nothing more is delivered (Next returns
       false), the system cannot get stuck before the producer has returned, and a returned
       producer stays returned. *)
@@ -171,6 +172,12 @@ Qed.
 
 Example ex_dag_run : order ex_dag 7 [1; 4] = (SOk, [4; 2; 3; 1]).
 Proof. vm_compute. reflexivity. Qed.
+
+(* Close while the datasource is inside a lookup: the lookup ends on the derived context *)
+Example ex_lts_close_in_lookup :
+  steps 1 {| prod := PLookup [5; 6]; cancelled := true; received := [4] |}
+          {| prod := PDone; cancelled := true; received := [4] |}.
+Proof. eapply steps_S; [apply st_lookup_cancelled|]. apply steps_O. Qed.
 
 Example ex_lts_close :
   steps 2 {| prod := PRun [5; 6]; cancelled := true; received := [4] |}
